@@ -70,6 +70,7 @@ type flowState struct {
 	firstMode string
 	acqModes  map[string]bool // modes in which the primary mutex is acquired by the own body
 	irregular bool
+	derived   map[string]bool // locals assigned, while a lock was held, from an expression that mentions the receiver
 }
 
 // phase: 0 = before the method's first lock, 1 = while it is held, 2 = after it was released (own goroutine only)
@@ -422,6 +423,25 @@ func (w *walker) flowStmt(s ast.Stmt) {
 		for _, r := range x.Rhs {
 			w.walkExpr(r, c)
 		}
+		if w.goro == 0 && len(w.st.held) > 0 {
+			// what is computed from the receiver's state under a lock may point into that state
+			for i, l := range x.Lhs {
+				id, ok := l.(*ast.Ident)
+				if !ok || id.Name == "_" {
+					continue
+				}
+				r := x.Rhs[0]
+				if len(x.Lhs) == len(x.Rhs) {
+					r = x.Rhs[i]
+				}
+				if w.mentionsRecvOrAlias(r) && !isFreshValue(r) {
+					if w.derived == nil {
+						w.derived = map[string]bool{}
+					}
+					w.derived[id.Name] = true
+				}
+			}
+		}
 		c = w.ctx()
 		for i, l := range x.Lhs {
 			var r ast.Expr
@@ -513,6 +533,7 @@ func (w *walker) flowStmt(s ast.Stmt) {
 			w.walkExpr(x.Cond, w.ctx())
 		}, x.Body.List, x.Post)
 	case *ast.RangeStmt:
+		w.derivedUse(x.X, x)
 		w.walkExpr(x.X, w.ctx())
 		w.flowLoop(x, func() {}, x.Body.List, nil)
 	case *ast.LabeledStmt:
@@ -642,4 +663,53 @@ func (w *walker) flowLoop(at ast.Node, cond func(), body []ast.Stmt, post ast.St
 	out.secs = maxInt(entry.secs, end.secs)
 	out.acquired = entry.acquired || end.acquired
 	w.st = out
+}
+
+func (w *walker) mentionsRecvOrAlias(n ast.Node) bool {
+	found := false
+	ast.Inspect(n, func(x ast.Node) bool {
+		if id, ok := x.(*ast.Ident); ok {
+			if id.Name == w.recv || w.derived[id.Name] {
+				found = true
+			}
+			if _, isAlias := w.alias[id.Name]; isAlias {
+				found = true
+			}
+		}
+		return !found
+	})
+	return found
+}
+
+// isFreshValue: len(..), cap(..), make(..), comparisons: the result cannot point into the receiver's state
+func isFreshValue(e ast.Expr) bool {
+	switch x := e.(type) {
+	case *ast.CallExpr:
+		if id, ok := x.Fun.(*ast.Ident); ok {
+			switch id.Name {
+			case "len", "cap", "make", "new":
+				return true
+			}
+		}
+	case *ast.BinaryExpr:
+		switch x.Op {
+		case token.EQL, token.NEQ, token.LSS, token.GTR, token.LEQ, token.GEQ, token.LAND, token.LOR:
+			return true
+		}
+	case *ast.BasicLit:
+		return true
+	}
+	return false
+}
+
+// derivedUse: a local computed from the receiver's state under the lock is looked INTO (field, method, index,
+// dereference, range) after the lock was released: an access to receiver state without the lock, which a syntactic
+// pass cannot attribute to a field
+func (w *walker) derivedUse(e ast.Expr, at ast.Node) bool {
+	id, ok := e.(*ast.Ident)
+	if !ok || !w.derived[id.Name] || w.goro != 0 || w.phase() != 2 {
+		return false
+	}
+	w.unknown("<"+id.Name+", computed from the receiver under the lock, is used after the lock was released>", w.ctx(), at)
+	return true
 }
